@@ -513,13 +513,199 @@ fn execute(case: &Case, report: &mut Report) {
     }
 }
 
+// ------------------------------------------------------------------------------------------------
+// Edge stage: client order ids shared between instruments (ids are only unique per instrument), several
+// of them outstanding together, and client answers that fall INSIDE the last millisecond before the
+// timeout (timers tick in milliseconds; the answer still arrived within the timeout).
+
+#[derive(Debug, Clone, Serialize, Deserialize, PartialEq)]
+struct EdgeReq {
+    open: bool,
+    instr: usize,
+    cid: String,
+    /// microseconds until the client answers; None = never
+    delay_us: Option<u64>,
+}
+
+#[derive(Debug, Clone, Serialize, Deserialize, PartialEq)]
+struct EdgeCase {
+    timeout_ms: u64,
+    reqs: Vec<EdgeReq>,
+}
+
+fn run_edge(case: &EdgeCase) -> Result<Outcome, V> {
+    let ins = instruments();
+    let ex_id = ExchangeId::Okx;
+    let ex_idx = ins.find_exchange_index(ex_id).unwrap();
+    let own: Vec<(InstrumentIndex, String)> = ins.instruments().iter().filter(|i| i.value.exchange.value == ex_id).map(|i| (i.key, i.value.name_exchange.name().to_string())).collect();
+    let map = generate_execution_instrument_map(&ins, ex_id).map_err(|e| ("execution_map_generation_failed", e.to_string()))?;
+    let indexer = AccountEventIndexer::new(Arc::new(map));
+    let timeout = Duration::from_millis(case.timeout_ms);
+    // the client's script is keyed by what the client sees: (kind, exchange instrument name, client order id)
+    let script: HashMap<(bool, String, String), Option<u64>> = case.reqs.iter().map(|r| ((r.open, own[r.instr].1.clone(), r.cid.clone()), r.delay_us)).collect();
+    let client = ScriptClient::new(move |call: &ClientCall| match script.get(&(call.is_open, call.instrument.name().to_string(), call.cid.0.to_string())) {
+        Some(Some(us)) => Reply::After(Duration::from_micros(*us), ReplyKind::Ok),
+        _ => Reply::Never,
+    });
+    let rt = tokio::runtime::Builder::new_current_thread().enable_time().start_paused(true).build().expect("runtime");
+    let reqs = case.reqs.clone();
+    let own_idx: Vec<InstrumentIndex> = own.iter().map(|o| o.0).collect();
+    let (seen, calls): (Vec<Seen>, Vec<ClientCall>) = rt.block_on(async {
+        let (req_tx, req_rx) = mpsc_unbounded::<ExecutionRequest>();
+        let (resp_tx, mut resp_rx) = mpsc_unbounded::<AccountStreamEvent>();
+        let manager = ExecutionManager::new(req_rx.into_stream(), timeout, resp_tx, Arc::new(client.clone()), indexer);
+        let handle = tokio::spawn(manager.run());
+        let start = tokio::time::Instant::now();
+        let collector = tokio::spawn(async move {
+            let mut seen = vec![];
+            while let Some(ev) = StreamExt::next(&mut resp_rx).await {
+                if let Some(s) = classify(ev, start.elapsed().as_millis()) {
+                    seen.push(s);
+                }
+            }
+            seen
+        });
+        for r in &reqs {
+            let key = OrderKey { exchange: ex_idx, instrument: own_idx[r.instr], strategy: StrategyId::new("s"), cid: ClientOrderId::new(r.cid.as_str()) };
+            let req = if r.open {
+                ExecutionRequest::Open(OrderRequestOpen { key, state: RequestOpen { side: Side::Buy, price: Decimal::from(10), quantity: Decimal::from(3), kind: OrderKind::Limit, time_in_force: TimeInForce::ImmediateOrCancel } })
+            } else {
+                ExecutionRequest::Cancel(OrderRequestCancel { key, state: RequestCancel { id: None } })
+            };
+            let _ = req_tx.tx.send(req);
+        }
+        tokio::time::sleep(timeout * 12 + Duration::from_secs(1)).await;
+        let _ = req_tx.tx.send(ExecutionRequest::Shutdown);
+        let _ = tokio::time::timeout(Duration::from_secs(30), handle).await;
+        drop(req_tx);
+        let seen = tokio::time::timeout(Duration::from_secs(30), collector).await.ok().and_then(|r| r.ok()).unwrap_or_default();
+        (seen, client.take_calls())
+    });
+    drop(rt);
+    let mut out = Outcome { events: seen.len() as u64, checks: 0, cells: vec!["edge_stage"], by_client: 0, by_timeout: 0 };
+    if calls.len() != case.reqs.len() {
+        return Err(("manager_did_not_forward_every_request_to_the_client", format!("edge stage: {} requests, {} client calls", case.reqs.len(), calls.len())));
+    }
+    let timeout_us = case.timeout_ms * 1000;
+    for (n, r) in case.reqs.iter().enumerate() {
+        out.checks += 3;
+        let want_instr = own_idx[r.instr].index();
+        let got: Vec<&Seen> = seen.iter().filter(|s| s.open == r.open && s.cid == r.cid && s.instr == want_instr).collect();
+        let shared = case.reqs.iter().filter(|o| o.open == r.open && o.cid == r.cid).count() > 1;
+        if shared {
+            out.cells.push("order_id_shared_between_instruments_outstanding_together");
+        }
+        if got.is_empty() {
+            return Err(("request_never_answered", format!("edge stage request #{n} {r:?} (timeout {} ms{}): no account event for this (kind, instrument, id); events for the id: {:?}", case.timeout_ms, if shared { ", id shared with another instrument" } else { "" }, seen.iter().filter(|s| s.cid == r.cid).map(|s| (s.open, s.instr, s.class)).collect::<Vec<_>>())));
+        }
+        if got.len() > 1 {
+            return Err(("request_answered_more_than_once", format!("edge stage request #{n} {r:?}: {:?}", got.iter().map(|s| (s.class, s.at_ms)).collect::<Vec<_>>())));
+        }
+        let s = got[0];
+        if s.exchange != ex_idx.index() {
+            return Err(("response_attributed_to_wrong_exchange_or_instrument", format!("edge stage request #{n} {r:?}: exchange {}", s.exchange)));
+        }
+        let want = match r.delay_us {
+            Some(us) if us < timeout_us => Some("ok"),
+            Some(us) if us == timeout_us => None,
+            _ => Some("timeout"),
+        };
+        if s.class == "timeout" {
+            out.by_timeout += 1;
+        } else {
+            out.by_client += 1;
+        }
+        if let Some(want) = want {
+            if s.class != want {
+                let sig = if want == "timeout" { "late_client_response_delivered_instead_of_timeout" } else { "timeout_reported_although_client_answered_in_time" };
+                return Err((sig, format!("edge stage request #{n} {r:?} (timeout {} ms): got {:?}, the client answers after {:?} us", case.timeout_ms, s.class, r.delay_us)));
+            }
+            if let Some(us) = r.delay_us {
+                if us < timeout_us && us > timeout_us - 1000 {
+                    out.cells.push("client_answers_within_the_last_millisecond_before_the_timeout");
+                }
+                if us > timeout_us && us < timeout_us + 1000 {
+                    out.cells.push("client_answers_within_the_first_millisecond_after_the_timeout");
+                }
+            }
+        }
+    }
+    // nothing that matches no request
+    for s in &seen {
+        out.checks += 1;
+        if !case.reqs.iter().any(|r| r.open == s.open && r.cid == s.cid && own_idx[r.instr].index() == s.instr) {
+            return Err(("response_for_a_request_that_was_never_made", format!("edge stage: {s:?}")));
+        }
+    }
+    Ok(out)
+}
+
+fn gen_edge(rng: &mut Rng) -> EdgeCase {
+    let timeout_ms = *rng.pick(&[50u64, 100, 1000]);
+    let t_us = timeout_ms * 1000;
+    let mut reqs: Vec<EdgeReq> = vec![];
+    let delays = |rng: &mut Rng| -> Option<u64> {
+        match rng.below(8) {
+            0 => None,
+            1 => Some(t_us - 500),
+            2 => Some(t_us - 100),
+            3 => Some(t_us + 500),
+            4 => Some(t_us - 1),
+            5 => Some(rng.range(0, t_us as i64 / 2) as u64),
+            6 => Some(t_us * 3),
+            _ => Some(rng.range(0, 2 * t_us as i64) as u64),
+        }
+    };
+    for g in 0..rng.range_u(1, 6) {
+        let open = rng.bool();
+        let cid = format!("q{g}");
+        // the same id on 1-3 instruments, all outstanding together
+        let mut instrs = vec![0usize, 1, 2];
+        rng.shuffle(&mut instrs);
+        instrs.truncate(rng.range_u(1, 3));
+        for instr in instrs {
+            reqs.push(EdgeReq { open, instr, cid: cid.clone(), delay_us: delays(rng) });
+        }
+    }
+    EdgeCase { timeout_ms, reqs }
+}
+
+fn execute_edge(case: &EdgeCase, report: &mut Report) {
+    let h = fnv1a(format!("edge{case:?}").as_bytes());
+    match run_edge(case) {
+        Ok(out) => {
+            report.events_observed += out.events;
+            report.oracle_checks += out.checks;
+            for c in &out.cells {
+                report.cover(c);
+            }
+            report.case(h, case.reqs.len() >= 3 && out.by_client >= 1 && out.by_timeout >= 1);
+        }
+        Err((sig, detail)) => {
+            report.case(h, true);
+            let small = shrink(&case.reqs, |cand| matches!(run_edge(&EdgeCase { reqs: cand.to_vec(), ..case.clone() }), Err((s, _)) if s == sig));
+            let c = EdgeCase { reqs: small, ..case.clone() };
+            let detail = match run_edge(&c) {
+                Err((_, dd)) => dd,
+                Ok(_) => detail,
+            };
+            report.violation(sig, detail, json!({"edge_case": c}));
+        }
+    }
+}
+
 fn main() {
     let args = Args::parse();
     if let Some(path) = &args.replay {
         let v: Value = serde_json::from_str(&std::fs::read_to_string(path).expect("read replay")).expect("json");
-        let case: Case = serde_json::from_value(v["history"]["case"].clone()).expect("case");
         let mut report = Report::new("C07");
-        execute(&case, &mut report);
+        if !v["history"]["edge_case"].is_null() {
+            let case: EdgeCase = serde_json::from_value(v["history"]["edge_case"].clone()).expect("edge case");
+            execute_edge(&case, &mut report);
+        } else {
+            let case: Case = serde_json::from_value(v["history"]["case"].clone()).expect("case");
+            execute(&case, &mut report);
+        }
         println!("{}", serde_json::to_string_pretty(&report.to_json()).unwrap());
         std::process::exit(if report.violation_count > 0 { 1 } else { 0 });
     }
@@ -535,10 +721,18 @@ fn main() {
         _ => args.size(48, 2_000),
     };
     let tsan = args.tier == "tsan";
+    let n_edge = match args.tier.as_str() {
+        "miri" => 1,
+        "tsan" => 0,
+        _ => args.size(600, 60_000),
+    };
     let mut report = run_workers(&args, "C07", |w, n, rng, report| {
         if !tsan {
             for _ in 0..Args::share(n_cases, w, n) {
                 execute(&gen_case(rng, false, small), report);
+            }
+            for _ in 0..Args::share(n_edge, w, n) {
+                execute_edge(&gen_edge(rng), report);
             }
         }
         // real-time multi-thread stage: few workers drive it so the machine is not oversubscribed
@@ -568,6 +762,9 @@ fn main() {
             "completion_order_differs_from_submission_order",
             "client_names_unknown_instrument(filtered)",
             "same_order_id_requested_again_after_resolution",
+            "order_id_shared_between_instruments_outstanding_together",
+            "client_answers_within_the_last_millisecond_before_the_timeout",
+            "client_answers_within_the_first_millisecond_after_the_timeout",
         ] {
             report.require(c);
         }
